@@ -227,9 +227,15 @@ pub struct Ctx<'a> {
 
 impl<'a> Ctx<'a> {
     fn violation(&mut self, sig: &str, what: String, detail: Value) {
-        self.violations += 1;
-        if self.verbose {
-            println!("REPLAY divergence [{sig}]: {what}");
+        if self.rep.is_known(sig) {
+            if self.verbose {
+                println!("REPLAY known-finding hit [{sig}]: {what}");
+            }
+        } else {
+            self.violations += 1;
+            if self.verbose {
+                println!("REPLAY divergence [{sig}]: {what}");
+            }
         }
         if self.quiet {
             return;
@@ -1385,9 +1391,20 @@ impl<'a> Ctx<'a> {
 
 fn optic_budget(rng: &mut Rng) -> OpticReadBudget {
     OpticReadBudget {
-        max_bytes: *rng.pick(&[None, Some(0), Some(64), Some(127), Some(128), Some(1024), Some(1024), Some(4096)]),
+        max_bytes: *rng.pick(&[
+            None,
+            Some(0),
+            Some(127),
+            Some(128),
+            Some(1024),
+            Some(1024),
+            Some(1024),
+            Some(4096),
+            Some(4096),
+            Some(u64::MAX),
+        ]),
         max_nodes: *rng.pick(&[None, Some(0), Some(8)]),
-        max_ticks: *rng.pick(&[None, Some(0), Some(1), Some(4), Some(64), Some(64)]),
+        max_ticks: *rng.pick(&[None, None, Some(0), Some(1), Some(4), Some(64), Some(64), Some(64)]),
         max_attachments: *rng.pick(&[None, Some(0), Some(2)]),
     }
 }
@@ -1497,6 +1514,8 @@ fn pass(ctx: &mut Ctx<'_>, sim: &Sim, rng: &mut Rng, remember: bool) {
             }
             for cat in ats {
                 let shapes = [
+                    OpticApertureShape::Head,
+                    OpticApertureShape::SnapshotMetadata,
                     OpticApertureShape::Head,
                     OpticApertureShape::SnapshotMetadata,
                     OpticApertureShape::Head,
@@ -1864,7 +1883,8 @@ pub fn run(args: &Args) -> i32 {
     probe_provenance_coordinate(&mut rep, false);
     let budget = Budget::for_tier(args.tier, 45.0, 600.0);
     let max_cases = args.by_tier(4_000u64, 200_000u64);
-    let n_shards = args.jobs.max(1) * 2;
+    // One shard per worker: every shard runs until the budget expires.
+    let n_shards = args.jobs.max(1);
     let seed = args.seed;
     verif_core::run_shards(&mut rep, args.jobs, n_shards, |shard, rep| {
         let mut case = shard as u64;
